@@ -271,6 +271,7 @@ LINE = {
     'ct_long': b'createType="' + b'a' * 80 + b'"',
     'ct_unterminated': b'createType="monolithicSparse',
     'nonascii': b'caf\xc3\xa9=1',
+    'nonascii_start': b'\xff',
 }
 GD_AT_END = 0xffffffffffffffff
 
